@@ -95,6 +95,14 @@ def main():
     seq("Trace_TableInit/result-digest", "Trace_TableInit", "Trace_TableInit.cfg", os.path.join(D, "trace.ndjson"),
         lambda e: e.get("ev") == "result",
         lambda e: e.__setitem__("dig", "0" * 16), env={"DEPS": os.path.join(D, "deps.ndjson")})
+    t = os.path.join(D, "shards.ndjson")
+    harness(["shards", "--walks", 30, "--steps", 20, "--out", t, "--seed", 5])
+    seq("Trace_Shards/chunk-content", "Trace_Shards", "Trace_Shards.cfg", t,
+        lambda e: e.get("ev") == "xor_within" and e["c"] >= 1 and any(len(c) >= 2 for c in e["flat"]),
+        lambda e: [c for c in e["flat"] if len(c) >= 2][0].pop())
+    seq("Trace_Shards/split-length", "Trace_Shards", "Trace_Shards.cfg", t,
+        lambda e: e.get("ev") == "split",
+        lambda e: e.__setitem__("len", e["len"] + 1))
     bad = 0
     for name, ok, msg in results:
         print("%-34s %s  %s" % (name, "BOUND" if ok else "NOT BOUND", msg))
